@@ -79,7 +79,7 @@ package mutation
 //@   modifies clock, rj.Labels, rj.Annotations, rj.Finalizers, rj.OwnerReferences, rj.Spec.Template, rj.Spec.StartPolicy, rj.Spec.ConfigName, heap(v1alpha1.StartPolicySpec), maps(string, string)
 //@   ensures [C16] no-config-name-is-a-no-op: rjcName == "" ==> *rj == old(*rj) && len(result.Errors) == 0
 //@   ensures [C16] unknown-jobconfig-is-an-error: rjcName != "" && jcCached(rj.Namespace, rjcName) == nil ==> len(result.Errors) > 0
-//@   ensures [C16] expanded: rjcName != "" && len(result.Errors) == 0 ==> (let jc = jcCached(rj.Namespace, rjcName) in jc != nil
+//@   ensures [C07,C16] expanded: rjcName != "" && len(result.Errors) == 0 ==> (let jc = jcCached(rj.Namespace, rjcName) in jc != nil
 //@        && rj.Spec.ConfigName == "" && rj.Spec.Template != nil && rj.Spec.Template.MaxAttempts == jc.Spec.Template.Spec.MaxAttempts
 //@        && len(rj.OwnerReferences) == 1 && rj.OwnerReferences[0].UID == jc.UID && rj.OwnerReferences[0].Name == jc.Name && rj.OwnerReferences[0].Controller != nil && *rj.OwnerReferences[0].Controller
 //@        && (jobconfig.LabelKeyJobConfigUID in rj.Labels) && rj.Labels[jobconfig.LabelKeyJobConfigUID] == string(jc.UID)
